@@ -226,3 +226,101 @@ Theorem C10_example2_contracts_hold : forall A qD ens tr,
   dmrg_twosite ex_orth ex_qr ex3_split keig_id ex3H ex3Psi 2 = Some (A, qD, ens, tr) -> dtr2_okb ex_qr ex3_split 2 (rev tr) = true ->
   rtr2_ok ex_qr ex3_split keig_id (o_A ex3H) 2 (rev tr).
 Proof. intros A qD ens tr _ H. apply rtr2_ok_id. exact H. Qed.
+
+(* ---------------------------------------------------------------------------------------------------------------
+   LINK to C15 / C14 / C04 (linking round; lemmas in Proofs/Link*.v).  The abstract local eigensolver of the sweep is
+   instantiated by the CONCRETE solver of pytenet/minimization.py,
+
+     keig_lanczos dnorm small deigh numiter  =  _minimize_local_energy :
+        w, u = eigh_krylov(lambda x: apply_local_hamiltonian(L, R, W, x.reshape(A.shape)).reshape(-1), A.reshape(-1), numiter, 1);
+        return w[0], u[:, 0].reshape(A.shape)
+
+   built from the Krylov model of C14/C15 (Model/Krylov.v) and the row-major flatten / unflatten bridge (Proofs/LinkFlatten.v).
+   The oracles left are the numerical primitives: numpy.linalg.norm (dnorm), the breakdown test (small), eigh_tridiagonal
+   (deigh), the block QR (qr) and MPS.orthonormalize (orth). *)
+From PT Require Import Model.Krylov Proofs.KrylovLanczos Proofs.KrylovRitz Proofs.OperationChains Proofs.SweepsInv Proofs.LinkFlatten Proofs.LinkLocalOps
+  Proofs.LinkSolvers Proofs.LinkCtx Proofs.LinkRunDMRG.
+
+(* keig_from_krylov: ONE call of _minimize_local_energy meets the Ritz contract keig_ok, given shapes, self-adjointness of H_eff
+   ([local_sa]: the conclusion of C04_heff_hermitian), a non-zero start tensor (otherwise the code raises) and the C14/C15
+   contracts of the primitives on the calls this call issues ([keig_lanczos_calls_ok]: norm_ok on every numpy.linalg.norm call of
+   the Lanczos loop; eigh_ok and eigh_sorted for the eigh_tridiagonal answer on the returned (alpha, beta)).
+   From C15_ritz_vectors (|A'| = 1, theta = <A'|H_eff A'>) and C15_ritz_upper_bound (theta <A|A> <= <A|H_eff A>); the lower
+   bound theta >= lam is not part of keig_ok: the sweep theorem derives it from theta = <psi|H|psi> (C10_dmrg_variational). *)
+Theorem C10_keig_from_krylov : forall (F : ofield) dnorm small deigh numiter,
+  small_sound F small -> (1 <= numiter)%nat ->
+  forall d Dl Dr Dwl Dwr pos (BL BR : env (Cx F)) (W : osite (Cx F)) (A : site (Cx F)),
+  (0 < d)%nat -> (0 < Dwl)%nat -> (0 < Dwr)%nat ->
+  osite_ok d Dwl Dwr W -> env_ok Dwl Dl Dl BL -> env_ok Dwr Dr Dr BR -> site_ok d Dl Dr A ->
+  local_sa F d Dl Dr (apply_local_hamiltonian BL BR W) ->
+  site_dot A A <> k0 (Cx F) ->
+  keig_lanczos_calls_ok F dnorm small deigh numiter BL BR W A ->
+  keig_ok d BL BR W A (keig_lanczos F dnorm small deigh numiter pos BL BR W A).
+Proof. exact keig_from_krylov. Qed.
+Print Assumptions C10_keig_from_krylov.
+
+(* at every state of the sweep (invariant Z: mixed-canonical, blocks = contractions of the neighbouring sites) the local problem
+   has consistent shapes and, for a Hermitian MPO, a self-adjoint effective Hamiltonian; the start tensor carries the norm *)
+Theorem C10_sweep_invariant_gives_local_problem : forall (F : ofield) (Hs : list (osite (Cx F))) d DsW,
+  (0 < d)%nat -> ochain_ok (repeat d (length Hs)) DsW Hs -> hd 0%nat DsW = 1%nat ->
+  forall (st : sw (Cx F)) i, Z (Cx F) Hs d st i ->
+  exists Dl Dr Dwl Dwr, (0 < Dwl)%nat /\ (0 < Dwr)%nat /\ osite_ok d Dwl Dwr (nth i Hs []) /\
+    env_ok Dwl Dl Dl (gBL st i) /\ env_ok Dwr Dr Dr (gBR st i) /\ site_ok d Dl Dr (gA st i) /\
+    NN (Cx F) Hs d (s_A st) = site_dot (gA st i) (gA st i) /\
+    (mpo_herm F Hs d -> local_sa F d Dl Dr (apply_local_hamiltonian (gBL st i) (gBR st i) (nth i Hs []))).
+Proof. exact Z_local_ctx. Qed.
+Print Assumptions C10_sweep_invariant_gives_local_problem.
+
+(* along a run: the LAPACK-level contracts of the recorded calls ([lrtr_ok]: qr_ok for QR, keig_lanczos_calls_ok for EIG) imply
+   the Ritz contracts of C10_dmrg1_whole_run *)
+Theorem C10_dmrg1_lapack_to_ritz : forall (F : ofield) orth qr dnorm small deigh numiter (H : mpo (Cx F)) psi n d DsW Ds0 A qD ens tr,
+  dmrg_singlesite orth qr (keig_lanczos F dnorm small deigh numiter) H psi n = Some (A, qD, ens, tr) ->
+  mpo_shapeb d DsW (o_A H) = true -> mps_shapeb d Ds0 (m_A (fst (orth psi))) = true ->
+  Forall right_iso (m_A (fst (orth psi))) -> (2 <= length (o_A H))%nat ->
+  mpo_herm F (o_A H) d -> small_sound F small -> (1 <= numiter)%nat ->
+  lrtr_ok qr dnorm small deigh numiter (o_A H) (rev tr) ->
+  rtr_ok qr (keig_lanczos F dnorm small deigh numiter) (o_A H) d (rev tr).
+Proof. exact dmrg1_lapack_to_ritz. Qed.
+Print Assumptions C10_dmrg1_lapack_to_ritz.
+
+(* WHOLE RUN, single-site, END TO END: with the Krylov-based eigensolver the only remaining hypotheses are LAPACK-level contracts on
+   the calls actually issued (block QR, numpy.linalg.norm, eigh_tridiagonal incl. ascending order, sound breakdown test),
+   right-isometry of MPS.orthonormalize's answer, Hermiticity of the MPO ([mpo_herm]) and, for the variational clause, H >= lam *)
+Theorem C10_dmrg1_whole_run_lapack : forall (F : ofield) orth qr dnorm small deigh numiter (H : mpo (Cx F)) psi n d DsW Ds0 lam A qD ens tr,
+  dmrg_singlesite orth qr (keig_lanczos F dnorm small deigh numiter) H psi n = Some (A, qD, ens, tr) ->
+  mpo_shapeb d DsW (o_A H) = true -> mps_shapeb d Ds0 (m_A (fst (orth psi))) = true ->
+  Forall right_iso (m_A (fst (orth psi))) ->
+  (2 <= length (o_A H))%nat -> bounded_below d (length (o_A H)) (o_A H) lam ->
+  mpo_herm F (o_A H) d -> small_sound F small -> (1 <= numiter)%nat ->
+  lrtr_ok qr dnorm small deigh numiter (o_A H) (rev tr) ->
+  let L := length (o_A H) in
+  let E0 := denergy d L (m_A (fst (orth psi))) (o_A H) in
+  dnorm2 d L A = k1 (Cx F) /\ length ens = n /\
+  Forall (fun e => fle F lam (cre e) /\ fle F (cre e) (cre E0)) ens /\ noninc ens /\
+  (ens <> [] -> last ens (k0 (Cx F)) = denergy d L A (o_A H)).
+Proof. exact dmrg1_run_lapack. Qed.
+Print Assumptions C10_dmrg1_whole_run_lapack.
+
+(* NOT DONE in the linking round (statement kept for the record): the two-site analogue
+
+   Theorem C10_dmrg2_whole_run_lapack : forall F orth qr split dnorm small deigh numiter H psi n d DsW Ds0 lam A qD ens tr,
+     dmrg_twosite orth qr split (keig_lanczos F dnorm small deigh numiter) H psi n = Some (A, qD, ens, tr) ->
+     mpo_shapeb d DsW (o_A H) = true -> mps_shapeb d Ds0 (m_A (fst (orth psi))) = true -> Forall right_iso (m_A (fst (orth psi))) ->
+     2 <= length (o_A H) -> bounded_below d (length (o_A H)) (o_A H) lam -> mpo_herm F (o_A H) d -> small_sound F small -> 1 <= numiter ->
+     lrtr2_ok ... (rev tr)    (* qr_ok, split_ok, keig_lanczos_calls_ok for EIG2 with d*d and the merged MPO tensor *) ->
+     (the five conclusions of C10_dmrg2_whole_run).
+
+   C10_keig_from_krylov already covers the merged two-site calls (d := d*d, W := the merged MPO tensor); missing is [local_sa] for the
+   merged problem from the two-site invariant Z2 (C04_two_site_is_projection + mpo_herm) and the lock-step induction over the
+   two-site schedule. *)
+
+(* Non-vacuity of C10_keig_from_krylov (Proofs/LinkExamplesLocal.v): the same one-site problem (H = diag(1, -1), start tensor (3, 4),
+   numiter = 2): every hypothesis holds; the model returns the Ritz value -1 (the ground energy) and the normalised tensor
+   (4/5, -3/5) U-combination, i.e. a unit vector with <A'|H A'> = -1 <= <A|H A>/<A|A> = -7/25 *)
+From PT Require Import Proofs.KrylovExamples Proofs.KrylovExamples15 Proofs.LinkExamplesLocal.
+Example C10_keig_from_krylov_nonvacuous :
+  keig_ok 2 lk_E lk_E lk_W lk_A (keig_lanczos QcF dnorm_ex ex_small lk_deigh 2 0 lk_E lk_E lk_W lk_A) /\
+  (let r := keig_lanczos QcF dnorm_ex ex_small lk_deigh 2 0 lk_E lk_E lk_W lk_A in
+   keqb CQ (fst r) (qq (-1) 1, qq 0 1) && keqb CQ (site_dot (snd r) (snd r)) (k1 CQ)
+   && keqb CQ (site_dot (snd r) (apply_local_hamiltonian lk_E lk_E lk_W (snd r))) (qq (-1) 1, qq 0 1) && Nat.eqb (length (snd r)) 2) = true.
+Proof. split; [exact lk_keig_ok|vm_compute; reflexivity]. Qed.
